@@ -118,10 +118,9 @@ def _add_links(c):
     c.requires("len(links_arg) >= 1", "non-empty")
     c.requires("forall(0, len(links_arg), lambda k: links_arg[k] >= 0)", "links-unsigned")
     c.define("pairwise_distinct", ["xs"], "forall(0, len(xs), lambda a: forall(0, len(xs), lambda b: implies(a < b, xs[a] != xs[b])))")
-    c.requires("pairwise_distinct(links_arg)", "links-distinct")
     c.ensures("len(sector_links) == old(len(sector_links))", "table-length-kept")
-    c.ensures("forall(0, len(links_arg) - 1, lambda k: sector_links[links_arg[k]].next == links_arg[k+1] "
-              "and not sector_links[links_arg[k]].end)", "links-installed")
+    c.ensures("implies(pairwise_distinct(links_arg), forall(0, len(links_arg) - 1, lambda k: sector_links[links_arg[k]].next == links_arg[k+1] "
+              "and not sector_links[links_arg[k]].end))", "links-installed")
     c.ensures("sector_links[links_arg[len(links_arg)-1]].end", "last-is-end")
     c.ensures("forall(0, len(sector_links), lambda s: implies(forall(0, len(links_arg), lambda k: links_arg[k] != s), "
               "sector_links[s].next == old(sector_links)[s].next and sector_links[s].end == old(sector_links)[s].end))",
@@ -133,7 +132,7 @@ def _add_links(c):
         "1 <= _i0 and _i0 <= len(links_arg)",
         "prev_link == links_arg[_i0 - 1]",
         "len(sector_links) == old(len(sector_links))",
-        "forall(0, _i0 - 1, lambda k: sector_links[links_arg[k]].next == links_arg[k+1] and not sector_links[links_arg[k]].end)",
+        "implies(pairwise_distinct(links_arg), forall(0, _i0 - 1, lambda k: sector_links[links_arg[k]].next == links_arg[k+1] and not sector_links[links_arg[k]].end))",
         "forall(0, _i0 - 1, lambda k: links_arg[k] < len(sector_links))",
         "forall(0, len(sector_links), lambda s: implies(forall(0, _i0 - 1, lambda k: links_arg[k] != s), "
         "sector_links[s].next == old(sector_links)[s].next and sector_links[s].end == old(sector_links)[s].end))",
